@@ -356,12 +356,15 @@ def gen_guided(ctx, count):
                     ops.append(("N", "leave", [s, 0]))
                     if rng.random() < 0.6:
                         ops.append(("N", "sub", [s, "-", 0]))
-                elif r < 0.82 and v is not None:
+                elif r < 0.86 and v is not None:
+                    # reload: what comes back must be what was stored; reports right after it
                     ops += [("N", "leave", [s, 0]) for s in sorted(sc.sessions) if s in v.csess] + [("N", "unload", [])]
                     ops += [("N", "sub", [s, "-", 0]) for s in (2, 5, 3, 1) if rng.random() < 0.85]
-                elif r < 0.86:
+                    ops += [("N", rng.choice(["getdesc", "getsub"]), [rng.choice([2, 5, 1])])]
+                elif r < 0.92:
                     ops.append(("N", "restart", []))
                     ops += [("N", "sub", [s, "-", 0]) for s in (1, 2, 3, 5) if rng.random() < 0.85]
+                    ops += [("N", rng.choice(["getdesc", "getsub"]), [rng.choice([2, 5, 1])])]
                 return ops
             plan += [probe, after]
         scns.append(sc)
